@@ -1228,3 +1228,47 @@ def g_linked_copy(self):
 
 
 Gen.g_linked_copy = g_linked_copy
+
+
+def g_term_scenario(self):
+    """Two documents whose Sections of one type inherit different terminologies that load, and an
+    optional terminology rule run on one and then on the other: one op per call, chosen by looking
+    at the state (document A with a typed Section -> saved as F1 -> document B saved empty as F2
+    -> B gets a Section of the same type -> A.repository = F1, B.repository = F2 -> the rule on
+    A's Section, on B's Section, and again)."""
+    mem = self.__dict__.setdefault("_term", {})
+    docs = self.U.of_kind("doc")
+    if len(docs) < 2:
+        return {"op": "new_doc"} if self.room() else None
+    a, b = docs[0], docs[1]
+    typed = lambda d: [s_ for s_ in d.sections if s_.type == "t1" and not s_.repository]
+    free = lambda d: [n for n in FRESH if not any(s_.name == n for s_ in d.sections)]
+    if not typed(a):
+        if not self.room() or not free(a):
+            return None
+        return {"op": "create_section", "t": self.cref(a), "name": free(a)[0], "type": "t1"}
+    if "f1" not in mem:
+        mem["f1"] = len(self.U.files)
+        return {"op": "save", "d": self.ref(a), "name": "term1", "backend": "xml"}
+    if "f2" not in mem:
+        if len(b.sections):
+            return None
+        mem["f2"] = len(self.U.files)
+        return {"op": "save", "d": self.ref(b), "name": "term2", "backend": "xml"}
+    if mem["f1"] >= len(self.U.files) or mem["f2"] >= len(self.U.files):
+        return None         # a save was refused
+    if not typed(b):
+        if not self.room() or not free(b):
+            return None
+        return {"op": "create_section", "t": self.cref(b), "name": free(b)[0], "type": "t1"}
+    for d, key in ((a, "f1"), (b, "f2")):
+        if not d.repository:
+            return {"op": "set_repository", "x": self.cref(d), "f": mem[key]}
+    turn = mem["turn"] = mem.get("turn", 0) + 1
+    d = (a, b, b, a)[turn % 4]
+    return {"op": "validate_optional", "x": self.ref(self.pick(typed(d))),
+            "rule": self.pick(["section_repository_present", "section_repository_present",
+                               "property_terminology_check"])}
+
+
+Gen.g_term_scenario = g_term_scenario
